@@ -246,9 +246,10 @@ class Session:
             return False
         raise ValueError(f"unknown step {st!r}")
 
-    async def _xfer(self, verb, arg, payload_len=None, connect="before", salt=0, chunk=None, gap=0):
+    async def _xfer(self, verb, arg, payload_len=None, connect="before", salt=0, chunk=None, gap=0, between=None):
         """Transfer step.  verb in RETR/STOR/APPE/LIST/MLSD.  connect: when the data
-        channel is made relative to the command (before|after|never|keep)."""
+        channel is made relative to the command (before|after|never|keep).  between: command lines sent (and
+        answered) after the 1xx mark and before the data connection is made (needs connect="after")."""
         p = self.peer
         upload = verb in ("STOR", "APPE")
         if connect == "before" and self.data is None:
@@ -268,6 +269,12 @@ class Session:
             self.outcomes.append(codes)
             await self._close_data()
             return True
+        for bl in (between or []):
+            rb = await p.cmd(bl)
+            codes.append("b:" + (rb.code if rb not in (None, "EOF") else str(rb)))
+            if self._dead(rb):
+                self.outcomes.append(codes)
+                return False
         if connect == "after" and self.data is None:
             try:
                 self.data = await p.open_data(self.pasv_port)
